@@ -11,34 +11,34 @@ TECH = 'deterministic simulation with fault injection: '
 # dimensions added after the sub-agent rounds (DESIGN.md 9 and 11)
 EXTRA = {
     'C01': '; the caller keeps one constraints dictionary and passes it '
-           'again; stale or foreign files at the detection output path',
+           'again; stale or foreign files at the detection output path; process default text encoding varied around verification',
     'C03': '; one Size object shared between calls; rexpy_streams on one '
            'list of lines (header skipping, output file of an earlier run); '
-           'earlier calls that fail part-way and are retried',
-    'C13': '; tag pairs over one list object / one output file',
+           'earlier calls that fail part-way and are retried; a flagged rexpy command before the judged one in the same process',
+    'C13': '; tag pairs over one list object / one output file; a flagged rexpy command before the judged one in the same process',
     'C14': '; Series and list-of-lines forms in the equivalence groups; '
-           'seeded calls that raise; returned lists edited by the caller',
+           'seeded calls that raise; returned lists edited by the caller; a kept seeded extractor run again after the caller drew random numbers',
     'C18': '; input container edited by the caller after extraction; '
-           're-extraction on the same extractor',
+           're-extraction on the same extractor; results pruned with a catch-all before the figures are asked',
     'C04': '; simulated file timestamps; I/O errors while failure artefacts '
-           'are written; option lists edited in place between assertions',
+           'are written; option lists edited in place between assertions; an encoding named for an earlier comparison on the same object; actual files named relative to the current directory with a stale $PWD',
     'C10': '; I/O errors during regeneration followed by a retry; simulated '
            'file ages',
     'C15': '; temp directory created after construction / per test class; '
-           'missing actual files; I/O errors on artefact writes',
+           'missing actual files; I/O errors on artefact writes; actual files named relative to the current directory with a stale $PWD',
     'C11': '; an earlier generation while the command was still unstable or '
-           'aborted on a later run; a second command in the same process',
+           'aborted on a later run; a second command in the same process; $TMPDIR reached through a symlink',
     'C12': '; the same unstable-then-repeatable history; sibling output '
-           'names; the test for a file is read off the generated script',
-    'C06': '; one constraints file rewritten between detections',
+           'names; the test for a file is read off the generated script; outputs with normalised modification times',
+    'C06': '; one constraints file rewritten between detections; removal of the stale output file failing (EBUSY); process default text encoding varied',
     'C09': '; the caller\'s dictionary re-serialised after verification; '
-           'warnings escalated to errors',
+           'warnings escalated to errors; file names containing $NAME with NAME set',
     'C17': '; invocations cut short by an I/O error and run again; the table '
-           'on standard input; alternative flag spellings',
+           'on standard input; alternative flag spellings; refused invocations run as under an interpreter started with -O (tdda re-imported compiled with optimize=1)',
     'C08': '; a second writer on its own connection to a shared database '
            'file (WAL / rollback journal); uncommitted writes; calls that '
            'fail part-way on the connection; the table re-created with other '
-           'column types',
+           'column types; local time zone with daylight saving and values in the skipped hour',
 }
 
 CHECKS = {
